@@ -805,6 +805,10 @@ func callRecover(f func() string) (out string, pan string) {
 				pan = "hang"
 				return
 			}
+			if _, ok := r.(deadlockSentinel); ok {
+				pan = "deadlock"
+				return
+			}
 			pan = fmt.Sprint(r)
 			if i := strings.IndexByte(pan, '\n'); i >= 0 {
 				pan = pan[:i]
